@@ -823,14 +823,18 @@ static void group()
     value_programs<u16>();
     value_programs<i32>();
     value_programs<u32>();
+#elif VF_PART == 2
     scaled_value_program<cnl::scaled_integer<int, cnl::power<-2, 10>>>();
     scaled_value_program<cnl::scaled_integer<i16, cnl::power<-1, 10>>>();
     scaled_value_program<cnl::scaled_integer<int, cnl::power<2, 10>>>();
+    scaled_value_program<cnl::scaled_integer<i8, cnl::power<-1, 16>>>();
+#elif VF_PART == 3
     scaled_value_program<cnl::scaled_integer<int, cnl::power<-3>>>();
     scaled_value_program<cnl::scaled_integer<u8, cnl::power<-2>>>();
     scaled_value_program<cnl::scaled_integer<int, cnl::power<-2, 3>>>();
-    scaled_value_program<cnl::scaled_integer<i8, cnl::power<-1, 16>>>();
+#elif VF_PART == 4
     scaled_value_program<cnl::scaled_integer<i64, cnl::power<-4, 10>>>();
+    scaled_value_program<cnl::scaled_integer<i64, cnl::power<-20>>>();
 #else
     value_programs<i64>();
     value_programs<u64>();
